@@ -324,3 +324,33 @@ def r17(rr, repo):
         noted = [n for n in ast.walk(za.S_init) if isinstance(n, ast.Assign) and 'st_ino' in U(n.value)]
         rr.ob('the identity of the socket files is noted when they are bound', bool(noted) and any(n.lineno > min(c.lineno for c in q.calls_in(za.S_init) if 'bind' in U(c)) for n in noted), za.mod,
               noted[0] if noted else za.S_init, witness=U(noted[0])[:80] if noted else 'nothing in __init__ reads st_ino', key='ipc-identity-noted-at-bind')
+
+
+@rule('C06.R18', "a balanced join keeps listening to its live workers: the first topic message of a set locks it onto that worker (the others leave the poller until the set is complete) - wherever that half set is "
+                 "dropped without being completed (the worker's CLOSE, a newer expected id at the entry of recv()) the others are put back into the poller, otherwise the join stays deaf to the healthy workers")
+def r18(rr, repo):
+    za = anchors(repo)
+    def reregisters(scope, after_line):
+        # a registration of sockets that are not in the poller, over all sources
+        for c in q.calls_in(scope, into_functions=False):
+            if U(c.func) == 'poller.register' and c.lineno > after_line:
+                g = q.effective_guards(c, scope)
+                if any(p and 'not in poller' in t for t, p in g) or any((not p) and 'in poller' in t and 'not in' not in t for t, p in g):
+                    return c, g
+        return None, None
+    closes = [n for n in ast.walk(za.R_once) if isinstance(n, ast.If) and 'MSG_ID_CLOSE' in U(n.test)]
+    rr.floor('CLOSE handlers in recv_once', len(closes), 1, za.mod, za.R_once)
+    for h in closes:
+        drops = [c for c in q.calls_in(h) if U(c.func).endswith('.new_recv') and not c.args and not c.keywords]
+        if not drops:
+            continue        # nothing dropped here: nothing to release (C02.R13 asks for the drop)
+        c, g = reregisters(h, drops[0].lineno)
+        under_balance = c is not None and any(p and t.strip() == 'balance' for t, p in g)
+        rr.ob("the CLOSE of a worker whose half set is dropped releases the balanced receiver's lock (the other sources are registered with the poller again)", c is not None and under_balance, za.mod, drops[0],
+              witness=(U(c)[:60] + ' under ' + ' && '.join(t for t, p in g if p)[:120]) if c is not None else 'no poller.register(..) for sockets that are not in the poller after the drop', key='balanced-lock-released-on-close')
+    entry = [n for n in za.R_recv.body if isinstance(n, ast.If) and 'min_recv_id' in U(n.test) and any(U(c.func).endswith('.new_recv') for c in q.calls_in(n))]
+    rr.floor('entry blocks of recv() that drop kept sets', len(entry), 1, za.mod, za.R_recv)
+    for n in entry:
+        c, g = reregisters(n, 0)
+        rr.ob('the entry block that drops kept sets puts every synchronized source that is out of the poller back (complete ones and those a balanced lock took out)', c is not None, za.mod, n,
+              witness=(U(c)[:60] + ' under ' + ' && '.join(t for t, p in g if p)[:120]) if c is not None else 'registration only for complete sources', key='balanced-lock-released-at-entry')
